@@ -346,6 +346,10 @@ def compute_feats_from_kaldi_tables(args: Optional[Sequence[str]] = None) -> Non
         for preprocessor in preprocessors:
             buff = preprocessor.apply(buff, in_place=True)
         feats = computer.compute_full(buff)
+        if len(feats):
+            # (nothing to post-process when the utterance is too short for a frame)
+            for postprocessor in postprocessors:
+                feats = postprocessor.apply(feats)
         if not KaldiDataType.BaseMatrix.is_double:
             feats = feats.astype(np.float32)
         feat_writer.write(utt_id, feats)
